@@ -95,6 +95,10 @@ def make_skip(delim):
 def make_inject(state):
     def inject_expected(head, error, default_error_recovery):
         from parglare.parser import Token
+        try:
+            state.setdefault("handed", []).append(error.location.start_position)
+        except BaseException:  # noqa
+            pass
         if head.token_ahead is None and state.get("last") != head.position:
             for s in head.state.actions.keys():
                 if s.name != "STOP":
@@ -254,6 +258,8 @@ def _glr_parse(parglare, impl, gi, p, w, state=None, ntrees=8, limit=4):
         r["kind"] = "SyntaxError"
         r["pos"] = e.location.start_position
         r["end"] = e.location.end_position
+        if state is not None:
+            r["handed"] = list(state.get("handed", []))
     except BaseException as e:  # noqa
         r["kind"] = "exc:" + impl.exc_kind(e)
         r["msg"] = str(e)[:200]
@@ -748,6 +754,14 @@ def run(ctx):
                 if k == "exc:Timeout" and plain["kind"] == "exc:Timeout":
                     st["glr_plain_timeouts"] = st.get("glr_plain_timeouts", 0) + 1
                     continue
+                if k == "SyntaxError" and res.get("handed"):
+                    # when recovery finally fails the error raised is the LAST one: the one the strategy
+                    # was asked to handle last, not one that had already been recovered from
+                    st["glr_last_error_checked"] = st.get("glr_last_error_checked", 0) + 1
+                    if res["pos"] != res["handed"][-1]:
+                        ctx.violation("GLRParser with recovery (%s) raises the SyntaxError at %r, the last error handed "
+                                      "to the strategy was at %r (errors handed: %r)"
+                                      % (sname, res["pos"], res["handed"][-1], res["handed"]), rep, key="glr-last-error")
                 if k == "exc:Timeout":
                     if _terminates_given_time(r["gtext"], r["delim"], sname, w, True):
                         st["timeouts_not_confirmed"] = st.get("timeouts_not_confirmed", 0) + 1
